@@ -110,7 +110,8 @@ def name : ANode → Str
   | .mk n _ _ _ _ _ => n
 def attrs : ANode → List XAttr
   | .mk _ a _ _ _ _ => a
-/-- `node.text()` -/
+/-- `optional_content(node)`: the text children of an element concatenated (for a text or comment
+node, which the parser never asks for: its own text) -/
 def text : ANode → Option Str
   | .mk _ _ t _ _ _ => t
 /-- `self.parse_optional_expression_instance(node)` -/
@@ -597,17 +598,23 @@ def parseItemDefinitions (cs : List ANode) (childName : Str) : PRes (List ItemDe
 
 /-! ## Tying the recursion -/
 
-/-- roxmltree `text()` of an element with children `cs`. -/
-def firstText : List XNode → Option Str
-  | .text t :: _ => some t
-  | _ => none
+/-- `xml_utils::optional_content` of an element with children `cs` (parser.rs:1099-1109): the text
+children concatenated (`None` when there is none); comments and processing instructions between
+them are not a part of the content. -/
+def textContent : List XNode → Option Str
+  | [] => none
+  | .text t :: cs =>
+    match textContent cs with
+    | some r => some (t ++ r)
+    | none => some t
+  | _ :: cs => textContent cs
 
 mutual
 /-- The node with the results of `parse_optional_expression_instance` and
 `parse_item_definitions(_, NODE_ITEM_COMPONENT)` on it and on every descendant. -/
 def annotate : XNode → ANode
   | .elem name attrs cs =>
-    .mk name attrs (firstText cs) (parseOptionalExpressionInstance (annotateList cs))
+    .mk name attrs (textContent cs) (parseOptionalExpressionInstance (annotateList cs))
       (parseItemDefinitions (annotateList cs) N.itemComponent) (annotateList cs)
   | .text t => .mk [] [] (some t) (parseOptionalExpressionInstance []) (parseItemDefinitions [] N.itemComponent) []
   | .comment t => .mk [] [] (some t) (parseOptionalExpressionInstance []) (parseItemDefinitions [] N.itemComponent) []
